@@ -730,6 +730,26 @@ func init() {
 	externs[db+"Iterator.Release"] = func(f *Frame, call *ast.CallExpr, recv Val, args []Val, st *State) []Val {
 		return nil
 	}
+	externs["github.com/ava-labs/avalanchego/utils/set.(Bits).Contains"] = func(f *Frame, call *ast.CallExpr, recv Val, args []Val, st *State) []Val {
+		r, ok := recv.(Sc)
+		if !ok {
+			f.in.unsupported(call.Pos(), "set.Bits must be declared opaque (type github.com/ava-labs/avalanchego/utils/set.Bits opaque)")
+		}
+		f.in.D.declareFun("bits_contains", []string{r.T.Sort, SInt}, SBool)
+		f.in.note("set.Bits.Contains: uninterpreted membership predicate of (bit set, index)")
+		return []Val{Sc{App("bits_contains", SBool, r.T, args[0].(Sc).T)}}
+	}
+	externs["github.com/ava-labs/avalanchego/codec.Codec.MarshalInto"] = func(f *Frame, call *ast.CallExpr, recv Val, args []Val, st *State) []Val {
+		// serialisation into a packer: the packer's content becomes arbitrary, the value is not modified
+		if p, ok := args[1].(PtrV); ok {
+			f.in.havocCell(st, p.To, f)
+		}
+		f.in.note("codec.Codec.MarshalInto: packer content havoc'd, arbitrary error (serialised bytes not modelled)")
+		return []Val{Sc{f.in.D.fresh("marshalerr", SErr)}}
+	}
+	externs["time.(Duration).Nanoseconds"] = func(f *Frame, call *ast.CallExpr, recv Val, args []Val, st *State) []Val {
+		return []Val{recv}
+	}
 	externs["github.com/ava-labs/avalanchego/utils.Zero"] = func(f *Frame, call *ast.CallExpr, recv Val, args []Val, st *State) []Val {
 		return []Val{f.in.zeroVal(resultType0(f, call), f)}
 	}
